@@ -237,6 +237,8 @@ impl<TStdlib: Stdlib, TStdIn: Input, TStdOut: Printer, TLpt1: Printer> Interpret
                             i = handler_address;
                         }
                         ErrorHandler::Next => {
+                            // the statement is abandoned: forget the arguments it was collecting
+                            self.context.drop_argument_states();
                             i = ctx.nearest_statement_finder.find_next(i);
                         }
                         ErrorHandler::None => {
